@@ -322,6 +322,26 @@ mp_exit_handler(void)
 	vt_flush();
 }
 
+/* objects handed back to the pool by exit handlers of the application, registered in the middle of the pool's use */
+static long late[NSLOT + 1];
+static int nlate, late_done;
+static void
+mp_late_free(void)
+{
+	long a, i;
+
+	if (late_done >= nlate) return;
+	a = late[nlate - 1 - late_done++];		/* handlers run in reverse order of registration */
+	if (slots[a] == NULL) return;
+	vt_begin("mp_free"); vt_int("slot", a); vt_int("obj", aw_live_id(slots[a]));
+	for (i = 0; i < (long)sizeof(struct obj); i++)
+		if (slots[a]->payload[i] != (char)a) break;
+	vt_bool("intact", i == (long)sizeof(struct obj)); vt_bool("late", 1);
+	mpool_obj_free(slots[a]);
+	slots[a] = NULL;
+	common(); vt_end();
+}
+
 static void
 run_mp_child(FILE * f)
 {
@@ -347,9 +367,19 @@ run_mp_child(FILE * f)
 			vt_bool("null", slots[a] == NULL); common(); vt_end();
 			if (slots[a] != NULL)
 				memset(slots[a], (int)a, sizeof(struct obj));	/* the object is ours: use all of it */
+		} else if (strcmp(op, "patexit") == 0) {
+			/* the application registers an exit handler that will hand this object back */
+			if (slots[a] == NULL || nlate >= 24)
+				continue;
+			for (i = 0; i < nlate; i++) if (late[i] == a) break;
+			if (i < nlate) continue;
+			late[nlate++] = a;
+			atexit(mp_late_free);
 		} else if (strcmp(op, "pfree") == 0) {
 			if (slots[a] == NULL)
 				continue;
+			for (i = 0; i < nlate; i++) if (late[i] == a) break;
+			if (i < nlate) continue;		/* (promised to an exit handler) */
 			vt_begin("mp_free"); vt_int("slot", a); vt_int("obj", aw_live_id(slots[a]));
 			/* still intact? (nobody else was handed the same object) */
 			for (i = 0; i < (long)sizeof(struct obj); i++)
@@ -362,6 +392,9 @@ run_mp_child(FILE * f)
 	}
 	for (i = 1; i <= NSLOT; i++)
 		if (slots[i] != NULL) {
+			long j;
+			for (j = 0; j < nlate; j++) if (late[j] == i) break;
+			if (j < nlate) continue;
 			vt_begin("mp_free"); vt_int("slot", i); vt_int("obj", aw_live_id(slots[i])); vt_bool("intact", 1);
 			mpool_obj_free(slots[i]); slots[i] = NULL;
 			common(); vt_end();
